@@ -94,6 +94,21 @@ func (a *Analysis) registryMiss(p *Path) (string, bool) {
 				return strings.Trim(k.C.ExactString(), "\""), true
 			}
 		}
+		// a checked assertion on the service found under a constant name fails: like a miss, infeasible under the
+		// start-up assumption when the service registered under that name implements the asserted interface
+		if v.Op == "tassert" && v.Name == "ok" && !c.Taken && len(v.Args) == 1 {
+			x := stripCT(v.Args[0])
+			if x.Op == "lookup" && len(x.Args) == 2 && x.Args[1].IsConst() && x.Args[1].C != nil && a.isRegistryMap(x.Args[0]) {
+				name := strings.Trim(x.Args[1].C.ExactString(), "\"")
+				if svc := a.U.ServiceByName(name); svc != nil {
+					if at, ok := v.Aux.(types.Type); ok {
+						if it, isI := at.Underlying().(*types.Interface); isI && types.Implements(types.NewPointer(svc.Type), it) {
+							return name, true
+						}
+					}
+				}
+			}
+		}
 	}
 	return "", false
 }
@@ -263,7 +278,7 @@ func (a *Analysis) encLayout(ct *CodecType, p *Path) *PathLayout {
 		if e.Kind != EvPatch {
 			continue
 		}
-		dst := stripCT(e.Dst)
+		dst := flattenSlice(e.Dst)
 		if dst.Op != "slice" || dst.Args[1] == nil {
 			continue
 		}
